@@ -53,6 +53,7 @@ pub struct Rec {
     cur_sweep: String,
     cur_index: u64,
     cur_payload: Option<String>,
+    replay_sweep: Option<String>,
     sample_every: u64,
 }
 
@@ -63,6 +64,16 @@ impl Rec {
     pub fn set_case(&mut self, index: u64, payload: Option<String>) {
         self.cur_index = index;
         self.cur_payload = payload;
+        self.replay_sweep = None;
+    }
+    /// findings of the current case are replayed through sweep `sweep` with this payload
+    /// (used by the history explorer: the payload is the operation path)
+    pub fn replay_as(&mut self, sweep: &str, payload: String) {
+        self.replay_sweep = Some(sweep.to_string());
+        self.cur_payload = Some(payload);
+    }
+    pub fn payload(&self) -> Option<&str> {
+        self.cur_payload.as_deref()
     }
     #[inline]
     pub fn hit(&mut self, class: &str) {
@@ -107,7 +118,7 @@ impl Rec {
         self.hit(&format!("finding:{}", sig));
         self.findings.push(Finding {
             sig,
-            sweep: self.cur_sweep.clone(),
+            sweep: self.replay_sweep.clone().unwrap_or_else(|| self.cur_sweep.clone()),
             index: self.cur_index,
             payload: self.cur_payload.clone(),
             case: trunc(&case.into(), 1500),
@@ -455,6 +466,13 @@ impl Ctx {
                 let fin = done.load(Ordering::Relaxed) >= n || next.load(Ordering::Relaxed) >= n && watch.cur.iter().all(|c| c.0.load(Ordering::Relaxed) == 0);
                 if fin {
                     break;
+                }
+                if stop.load(Ordering::Relaxed) && watch.cur.iter().all(|c| c.0.load(Ordering::Relaxed) == 0) {
+                    // budget exhausted: the workers have left (reported as a capped sweep below)
+                    std::thread::sleep(Duration::from_millis(200));
+                    if watch.cur.iter().all(|c| c.0.load(Ordering::Relaxed) == 0) {
+                        break;
+                    }
                 }
                 let now = start.elapsed().as_millis() as u64;
                 for c in &watch.cur {
